@@ -12,6 +12,18 @@ CRATES = ["ckb-constant", "ckb-occupied-capacity-core", "ckb-types", "ckb-chain-
 U64 = (1 << 64) - 1
 WMAX = (1 << 32)
 
+VAL = []
+
+
+def validate(S, native):
+    cases, mism = 0, []
+    for (S_x, ctx, inputs) in VAL:
+        c, m = S.validate(ctx, inputs)
+        cases += c
+        mism += m
+    del VAL[:]
+    return {"cases": cases, "mismatches": mism}
+
 
 def window(ctx, name):
     """symbolic ProposalWindow(close, far) with 1 <= close <= far < 2^32 (the constructor contract of the spec)"""
@@ -34,15 +46,43 @@ def bound_pred(b, h, lower):
     raise Inconclusive(f"symbolic bound kind {d}")
 
 
+def _nm(ex, v):
+    v = deref(ex, v)
+    return getattr(v, "name", None) or type(v).__name__
+
+
 def finalize_paths(S, ctx, n, tab_name="tab"):
+    """environment of ProposalTable::finalize: the BTreeMap/HashSet/iterator calls return opaque values *named after their
+    provenance*, so that the obligation can read off which range each returned set was collected from"""
     tab = OpaqueV(tab_name, "ProposalTable")
     origin = OpaqueV("origin", "ProposalView")
+
+    def rng(ex, callee, args, dty):
+        k = len([e for e in ex.log if e[0] == "range"])
+        ex.log.append(("range", callee, [E.snapshot(ex, a) for a in args], list(ex.pc)))
+        return OpaqueV(f"range{k}", dty)
+
+    def passthrough(suffix):
+        def h(ex, callee, args, dty):
+            return OpaqueV(_nm(ex, args[0]) + suffix, dty)
+        return h
+
+    def difference(ex, callee, args, dty):
+        return OpaqueV(f"diff({_nm(ex, args[0])},{_nm(ex, args[1])})", dty)
+
+    def view_new(ex, callee, args, dty):
+        ex.log.append(("view_new", callee, [_nm(ex, args[0]), _nm(ex, args[1])], list(ex.pc)))
+        return OpaqueV(f"view({_nm(ex, args[0])},{_nm(ex, args[1])})", dty)
+
     ctx.env = list(E.LOGGING_OFF) + [
         (E.rx(r"BTreeMap::<.*>::split_off"), E.opaque_call("split_off")),
-        (E.rx(r"BTreeMap::<.*>::range"), E.opaque_call("range")),
-        (E.rx(r"as Iterator>::(flat_map|cloned|collect)"), E.opaque_call()),
-        (E.rx(r"HashSet::<.*>::(new|difference)"), E.opaque_call()),
-        (E.rx(r"ProposalView::(set|new)"), E.opaque_call("view")),
+        (E.rx(r"BTreeMap::<.*>::range"), rng),
+        (E.rx(r"as Iterator>::(flat_map|cloned)"), passthrough("")),
+        (E.rx(r"as Iterator>::collect"), passthrough(".collect")),
+        (E.rx(r"HashSet::<.*>::new$"), lambda ex, c, a, d: OpaqueV("empty", d)),
+        (E.rx(r"HashSet::<.*>::difference"), difference),
+        (E.rx(r"ProposalView::set$"), lambda ex, c, a, d: ex.ctx.ref_to(OpaqueV(_nm(ex, a[0]) + ".set", "HashSet"))),
+        (E.rx(r"ProposalView::new$"), view_new),
         (E.rx(r"max_level|__private_api|fmt::rt::|Arguments"), E.opaque_call()),
     ]
     paths = S.run(ctx, "ProposalTable::finalize", [ctx.ref_to(tab), ctx.ref_to(origin), n])
@@ -56,6 +96,8 @@ def m1_finalize(S):
     c, f, wpre = window(ctx, "tab.1")
     h = ctx.int("h", "u64").t
     paths = finalize_paths(S, ctx, n)
+    VAL.append((S, ctx, [{"n": nn, "tab.1.0": cc, "tab.1.1": ff} for nn in list(range(0, 16)) + [100, 1000, 1 << 40] for (cc, ff) in ((1, 1), (2, 10), (1, 3), (3, 3), (4, 9))]))
+    S.native_oracle(ctx, "proposal_finalize", [n.t, c, f], [1, 1, 1, 1], pre=T.and_(T.lt(n.t, U64 - 4), T.le(1, c), T.le(c, f), T.lt(f, 64)))
     S.prove(ctx, ob, "panics_iff_tip_is_u64_max", wpre, T.iff(cond_of(panics(paths)), T.eq(n.t, U64)))
     cand = T.add(n.t, 1)
     dist = T.sub(cand, h)
@@ -93,6 +135,20 @@ def m1_finalize(S):
         else:
             # no split: nothing at height >= 1 may lie below the window except height 1 itself (proposal_start <= 1)
             S.prove(ctx, ob, f"path{k}_no_split_means_window_starts_at_chain_start", pre + [T.le(h, n.t), T.gt(dist, f)], T.le(h, 1))
+        # provenance of what is returned: (removed, view) with view = ProposalView::new(gap, set), set collected from the window
+        # range (or empty below w_close), gap from the gap range, removed = origin.set() \\ set
+        rv = p.value
+        views = [e for e in p.log if e[0] == "view_new"]
+        if not (isinstance(rv, AggV) and len(rv.fields) == 2 and len(views) == 1):
+            raise Inconclusive(f"finalize path {k}: unexpected return shape {rv} / {len(views)} ProposalView::new calls")
+        removed_nm, view_nm = [getattr(x, "name", "?") for x in rv.fields]
+        gap_nm, set_nm = views[0][2]
+        want_set = "empty" if len(ranges) == 1 else "range0.collect"
+        want_gap = "range0.collect" if len(ranges) == 1 else "range1.collect"
+        S.prove(ctx, ob, f"path{k}_view_is_built_from_the_two_ranges", pre, bool(set_nm == want_set and gap_nm == want_gap and view_nm == f"view({gap_nm},{set_nm})"),
+                extra={"note": f"set={set_nm} gap={gap_nm} returned view={view_nm}"})
+        S.prove(ctx, ob, f"path{k}_removed_is_old_set_minus_new_set", pre, bool(removed_nm in (f"diff(origin.set,{set_nm})", f"diff(origin.set,{set_nm}).collect")),
+                extra={"note": f"returned removed={removed_nm}"})
     S.witness(ctx, ob, "reach_set_window", wpre + [T.le(1, h)], T.or_(*any_set))
     return
 
@@ -194,7 +250,19 @@ def m3_init(S):
     wpre = [T.le(1, c), T.le(c, f), T.lt(f, WMAX)]
 
     def range_new(ex, callee, args, dty):
-        ex.log.append(("load_range", callee, [E.snapshot(ex, a) for a in args], list(ex.pc)))
+        return AggV((E.snapshot(ex, args[0]), E.snapshot(ex, args[1]), BoolV(False)), "RangeInclusive<u64>")
+
+    def into_iter(ex, callee, args, dty):
+        # the loop over block numbers: `a..=b` (RangeInclusive::new) or `a..b` (a Range aggregate); record the heights it covers
+        from mir2smt.exec import ENV_PASS
+        r = deref(ex, args[0])
+        if isinstance(r, AggV) and r.ty.startswith("RangeInclusive") and len(r.fields) == 3:
+            lo, hi = as_int(r.fields[0]), as_int(r.fields[1])
+        elif isinstance(r, AggV) and len(r.fields) == 2 and all(isinstance(x, IntV) for x in r.fields):
+            lo, hi = r.fields[0].t, T.sub(r.fields[1].t, 1)
+        else:
+            return ENV_PASS
+        ex.log.append(("load_range", callee, [IntV(lo, "u64"), IntV(hi, "u64")], list(ex.pc)))
         raise Stop("range")
 
     ctx.env = list(E.LOGGING_OFF) + [
@@ -203,6 +271,7 @@ def m3_init(S):
         (E.rx(r"HeaderView::number"), lambda ex, cal, a, d: tip),
         (E.rx(r"ProposalTable::new"), E.opaque_call()),
         (E.rx(r"RangeInclusive::<u64>::new"), range_new),
+        (E.rx(r"Range(Inclusive)?<u64> as (?:std::iter::|core::iter::)?IntoIterator>::into_iter$"), into_iter),
     ]
     fn = S.fn("SharedBuilder::init_proposal_table")
     paths = S.run(ctx, fn, [ctx.ref_to(OpaqueV("store", "ChainDB")), ctx.ref_to(OpaqueV("cons", "Consensus"))], allow=("stop", "panic"))
